@@ -16,6 +16,8 @@ func runC16(c *Ctx) {
 		return
 	}
 	ruleEntry(c, a)
+	// "a status naming its outcome": the stages run in order — decrypt, then parse/validate, then send — so the first failing stage names the status
+	ruleSendGuard(c, a, "STAGES")
 	ruleClientReport(c, a)
 	ruleTargetReport(c, a)
 	ruleArityAll(c, "ARITY")
